@@ -32,6 +32,7 @@ from mc import core, ref
 from mc.seams import StubGenerator, clear_numqi_caches
 
 PROPERTY = 'C11'
+GUARD = ['numqi.sim.state']  # argument-immutability oracle (mc.seams.ImmutabilityGuard)
 LEVEL = 'model_checking'
 RULE = ('state = (qubit count, measured subset(s), input state, history of outcomes chosen by the stub generator); every non-empty '
         'ascending subset x every alphabet state x every outcome with non-zero Born probability is executed on the real '
